@@ -595,6 +595,65 @@ var nearMiss = []string{"keywords", "monkey", "keys", "Key", "KEY", "key_id", "t
 var oddTags = []string{"", ",omitempty", "-", "a b", " key", "key ", "value ", ",", "title,", "x,y,z", "é"}
 var optionSuffix = []string{"", "", "", ",omitempty", ",omitempty", ", omitempty", ",omitempty ", ",deletable", ",foo,omitempty", ",omitemptyx"}
 
+var goNamePool = []string{"Key", "Value", "Title", "Subtitle", "Keywords", "Name", "ID", "Tags", "Count", "CreatedAt", "CreatedBy",
+	"UpdatedAt", "UpdatedBy", "ExpireAt", "ExpiredAt", "Values", "Omitempty", "Body", "Meta"}
+
+func isReservedHead(h string) bool {
+	for _, t := range reservedTags {
+		if t == h {
+			return true
+		}
+	}
+	return false
+}
+
+// crossLink makes the wire name (tag head) of one tagged, non-reserved field A coincide with the
+// Go NAME of another such field B (exactly, lower-cased or upper-cased) and usually makes B absent
+// from what is stored (omitempty + zero value) while A holds a value: any "fall back to the field
+// name", "match names case-insensitively" or "first field that answers to this name" logic in
+// the converters then reads or writes the wrong field.
+func (m *model) crossLink(r *common.Rng) bool {
+	var idx []int
+	for i, f := range m.Fields {
+		if f.Tag != nil && head(*f.Tag) != "" && !isReservedHead(head(*f.Tag)) {
+			idx = append(idx, i)
+		}
+	}
+	if len(idx) < 2 {
+		return false
+	}
+	a, b := idx[r.Intn(len(idx))], idx[r.Intn(len(idx))]
+	if a == b {
+		return false
+	}
+	A, B := &m.Fields[a], &m.Fields[b]
+	newHead := B.Name
+	switch r.Intn(6) {
+	case 0:
+		newHead = strings.ToLower(newHead)
+	case 1:
+		newHead = strings.ToUpper(newHead)
+	}
+	for i, f := range m.Fields {
+		if i != a && f.Tag != nil && head(*f.Tag) == newHead {
+			return false
+		}
+	}
+	if isReservedHead(newHead) {
+		return false
+	}
+	A.Tag = sp(newHead + strings.TrimPrefix(*A.Tag, head(*A.Tag)))
+	if r.Chance(50) {
+		A.Kind = B.Kind
+	}
+	A.Val = genValue(r, A.Kind, 2)
+	if r.Chance(65) {
+		B.Tag = sp(head(*B.Tag) + ",omitempty")
+		B.Val = reflect.Zero(B.Kind.typ)
+	}
+	return true
+}
+
 func sp(s string) *string { return &s }
 
 func pickMode(r *common.Rng) int {
@@ -647,12 +706,16 @@ func (m *model) addFresh(r *common.Rng, gen func() string, k *kind, mode int) {
 
 func (m *model) add(r *common.Rng, tag *string, k *kind, mode int) {
 	f := fieldSpec{Name: fmt.Sprintf("F%d", len(m.Fields)), Tag: tag, Kind: k}
-	if r.Chance(15) {
+	switch x := r.Intn(100); {
+	case x < 15:
 		f.Name = strings.ToUpper(randIdent(r, 1)) + randIdent(r, r.Intn(6))
-		for _, g := range m.Fields {
-			if g.Name == f.Name {
-				f.Name = fmt.Sprintf("F%d", len(m.Fields))
-			}
+	case x < 40:
+		// Go field names that look like wire names / reserved words: the SDK must go by the tag only
+		f.Name = goNamePool[r.Intn(len(goNamePool))]
+	}
+	for _, g := range m.Fields {
+		if g.Name == f.Name {
+			f.Name = fmt.Sprintf("F%d", len(m.Fields))
 		}
 	}
 	f.Val = genValue(r, k, mode)
@@ -749,6 +812,9 @@ func genCatalogModel(r *common.Rng) (*model, string) {
 	if len(m.Fields) == 0 {
 		m.add(r, sp("key"), &kinds[kString], 2)
 	}
+	if (strings.HasPrefix(shapeKind, "body") || strings.HasPrefix(shapeKind, "chaos")) && r.Chance(35) && m.crossLink(r) {
+		shapeKind += "+xname"
+	}
 	// shuffle the field order (the key need not come first)
 	if r.Chance(50) {
 		for i := len(m.Fields) - 1; i > 0; i-- {
@@ -779,6 +845,12 @@ func genProfileModel(r *common.Rng) *model {
 			tag = sp(nearMiss[r.Intn(len(nearMiss))])
 		}
 		m.add(r, tag, randKind(r), pickMode(r))
+	}
+	if len(m.Fields) >= 2 && r.Chance(20) { // a tag that is another field's Go name (profile keys are field names)
+		i, j := r.Intn(len(m.Fields)), r.Intn(len(m.Fields))
+		if i != j {
+			m.Fields[i].Tag = sp(m.Fields[j].Name + []string{"", ",omitempty", ",deletable"}[r.Intn(3)])
+		}
 	}
 	m.build()
 	return m
@@ -1184,6 +1256,119 @@ func runDecodeProbe(tag string, useTime bool, tokSeed int) result {
 		nontrivial: true, hist: []string{"probe:decode"}}
 }
 
+// runBodyDecodeProbe decodes a FOREIGN map body (as the patch flow, another SDK or an older
+// version of the model would have written it) into a map-body model: entries under some of the
+// model's wire names, under Go field names of its fields, under case variants and under unknown
+// names. Only the entries stored under a field's own wire name may reach that field.
+func runBodyDecodeProbe(r *common.Rng) (result, bool) {
+	m, _ := genCatalogModel(r)
+	sh, names, idxs, _, err := hydraidego.VerifC22Inspect(m.Type)
+	if err != nil || sh != 2 {
+		return result{}, false
+	}
+	wire := map[string]int{}
+	for k, n := range names {
+		if _, dup := wire[n]; dup || m.Fields[idxs[k]].Kind.cx == "other" {
+			return result{}, false
+		}
+		wire[n] = idxs[k]
+	}
+	body := map[string]any{}
+	terms := map[string]string{}
+	for i := range m.Fields {
+		m.Fields[i].Val = reflect.Zero(m.Fields[i].Kind.typ)
+	}
+	for n, i := range wire {
+		if r.Chance(65) {
+			f := &m.Fields[i]
+			f.Val = genValue(r, f.Kind, pickMode(r))
+			body[n] = f.Val.Interface()
+			terms[n] = canonTerm(f.Val, tok(i))
+		}
+	}
+	foreign := func(n string) {
+		if _, used := body[n]; used || n == "" {
+			return
+		}
+		if _, isWire := wire[n]; isWire {
+			return
+		}
+		switch r.Intn(3) {
+		case 0:
+			s := randString(r)
+			body[n], terms[n] = s, "(VStr "+strTerm(s)+")"
+		case 1:
+			x := int64(r.U64())
+			body[n], terms[n] = x, "(VI I64 "+common.Z(x)+")"
+		default:
+			b := r.Bool()
+			body[n], terms[n] = b, "(VBool "+common.Bool(b)+")"
+		}
+	}
+	for _, f := range m.Fields {
+		if r.Chance(60) {
+			foreign(f.Name)
+		}
+		if r.Chance(25) {
+			foreign(strings.ToLower(f.Name))
+		}
+	}
+	for n := range wire {
+		if r.Chance(25) {
+			foreign(strings.ToUpper(n))
+		}
+		if r.Chance(25) {
+			foreign(strings.ToLower(n))
+		}
+		if r.Chance(15) {
+			foreign(n + "x")
+		}
+	}
+	foreign(randIdent(r, 1+r.Intn(6)))
+	if len(body) == 0 {
+		return result{}, false
+	}
+	enc, err := msgpack.Marshal(body)
+	if err != nil {
+		return result{}, false
+	}
+	blob := append([]byte{0xC7, 0x00}, enc...)
+	if r.Chance(30) {
+		blob = enc // the patch flow hands back the unwrapped msgpack
+	}
+	ns := make([]string, 0, len(terms))
+	for n := range terms {
+		ns = append(ns, n)
+	}
+	sort.Strings(ns)
+	var es []string
+	for _, n := range ns {
+		es = append(es, "("+strTerm(n)+", "+terms[n]+")")
+	}
+	tr := &hydrapb.Treasure{Key: "thekey", IsExist: true, BytesVal: blob}
+	tT := fmt.Sprintf("(mkT %s (Some (tBytes (BBody %s))) 0%%Z [] 0%%Z [] 0%%Z)", strTerm("thekey"), common.List(es))
+	got := reflect.New(m.Type)
+	derr, panicked := safely(func() error { return hydraidego.VerifC22Decode(tr, got.Interface()) })
+	readTerm := "ReadErr"
+	switch {
+	case panicked:
+		readTerm = "ReadPanic"
+	case derr == nil:
+		// the key field legitimately receives the treasure key
+		for i, f := range m.Fields {
+			if f.Tag != nil && head(*f.Tag) == "key" && f.Kind.name == "string" {
+				m.Fields[i].Val = reflect.ValueOf("thekey")
+			}
+		}
+		readTerm = m.readTerm(got)
+	}
+	// the model term must describe the struct TYPE only (values = what the body holds per wire name)
+	return result{term: "CDecode " + tT + " " + m.term() + " " + readTerm,
+		descr: map[string]interface{}{"probe": "decode of a foreign map body", "model": m.descr(), "body_keys": ns,
+			"outcome": fmt.Sprint(derr), "read": fmt.Sprintf("%+v", got.Elem().Interface())},
+		nontrivial: true, hist: []string{"probe:body-decode"}}, true
+}
+
 func runInspectProbe(m *model) result {
 	sh, names, _, omit, err := hydraidego.VerifC22Inspect(m.Type)
 	o := "InspErr"
@@ -1290,7 +1475,7 @@ func main() {
 		}
 	}
 
-	nCat, nProf, nInsp := 1200, 400, 300
+	nCat, nProf, nInsp := 1050, 380, 280
 	if args.Tier == "thorough" {
 		nCat, nProf, nInsp = 16000, 5000, 2000
 	}
@@ -1310,6 +1495,14 @@ func main() {
 	for i := 0; i < nInsp; i++ {
 		m, _ := genCatalogModel(ri)
 		results = append(results, runInspectProbe(m))
+	}
+	// 3b. foreign-body decode probes
+	rb := base.Fork("bodyprobe")
+	for n, tries := 0, 0; n < nInsp && tries < 20*nInsp; tries++ {
+		if res, ok := runBodyDecodeProbe(rb); ok {
+			results = append(results, res)
+			n++
+		}
 	}
 	// 4. named model types, sequentially: per type an inspect probe, then three save/read rounds
 	//    with zero / boundary / random values; the order of the types changes with the seed
